@@ -101,6 +101,9 @@ type Op struct {
 	// for the duration of this one request ("" = none; code exchange only)
 	Place string
 	Fault string
+	// how the Basic header encodes id and secret: "" = form encoding with '+' for a space (RFC 6749
+	// 2.3.1, url.QueryEscape), "pct" = the same with %20 for a space; both denote the same credential
+	BasicEnc string
 }
 
 var placeCoq = map[string]string{"": "P_body", "body": "P_body", "overlap": "P_overlap", "query": "P_query", "grant-query": "P_grant_query",
@@ -187,6 +190,7 @@ type Tokens struct {
 	ATSub  string
 	JWT    bool
 	JWTCli string
+	ATAud  []string
 	RT     int
 	Sub    string
 	Aud    []string
@@ -201,7 +205,7 @@ func (t *Tokens) Coq() string {
 	if t.JWT {
 		jwt = emit.Some(emit.Str(t.JWTCli))
 	}
-	return "{| t_at := " + emit.Nat(t.AT) + "; t_at_sub := " + emit.Str(t.ATSub) + "; t_jwt := " + jwt +
+	return "{| t_at := " + emit.Nat(t.AT) + "; t_at_sub := " + emit.Str(t.ATSub) + "; t_jwt := " + jwt + "; t_at_aud := " + emit.StrList(t.ATAud) +
 		"; t_rt := " + optNat(t.RT) + "; t_sub := " + emit.Str(t.Sub) + "; t_aud := " + emit.StrList(t.Aud) +
 		"; t_azp := " + emit.Str(t.Azp) + "; t_nonce := " + emit.Str(t.Nonce) + "; t_auth := " + emit.Nat(t.Auth) +
 		"; t_scope := " + emit.StrList(t.Scope) + " |}"
@@ -234,6 +238,7 @@ type Options struct {
 	LiveGrants                 bool              // the storage hands out the live refresh grant (refstore ext_c07.go)
 	KeepRT                     bool              // the storage does not rotate refresh tokens (refstore ext_c07.go)
 	NoReqObj                   bool              // Config.RequestObjectSupported off
+	Aud                        []string          // the audience the storage gives every grant (nil = the client alone)
 	ReplaceUI                  bool              // the storage replaces the userinfo struct it is handed instead of setting fields (refstore AsStyledStorage)
 	Loud                       bool              // the storage returns what it knows NEXT TO the error of a refused lookup (refstore AsLoudStorage)
 	AuthOther                  map[string]string // client id -> registered auth method outside the four named values
@@ -364,7 +369,12 @@ func ExtraClients() []*refstore.Client {
 	web.Keys = map[string]*jose.JSONWebKey{"k1": {Key: &wk.PublicKey, KeyID: "k1", Algorithm: "ES256", Use: "sig"}}
 	k := opfix.ECKey("client-pkjwt2")
 	pk.Keys = map[string]*jose.JSONWebKey{"k2": {Key: &k.PublicKey, KeyID: "k2", Algorithm: "ES256", Use: "sig"}}
-	return []*refstore.Client{&web, &pk}
+	// id and secret with a space and with characters that are reserved in form encoding
+	sp := *std[0]
+	sp.ID, sp.Secret, sp.Redirects, sp.PostLogout = "web 3", "pass phrase+1%/=&x", []string{"https://web3.example.com/cb"}, nil
+	sk := opfix.ECKey("client-web 3")
+	sp.Keys = map[string]*jose.JSONWebKey{"k1": {Key: &sk.PublicKey, KeyID: "k1", Algorithm: "ES256", Use: "sig"}}
+	return []*refstore.Client{&web, &pk, &sp}
 }
 
 type World struct {
@@ -481,7 +491,7 @@ func (w *World) CfgCoq() string {
 	}
 	return "{| f_post := " + emit.Bool(!w.Opts.NoPost) + "; f_pkjwt := " + emit.Bool(!w.Opts.NoPKJWT) +
 		"; f_refresh := " + emit.Bool(!w.Opts.NoRefresh) + "; f_reqobj := " + emit.Bool(!w.Opts.NoReqObj) +
-		"; f_keep := " + emit.Bool(w.Opts.KeepRT) + "; clients := " + emit.List(cs) + " |}"
+		"; f_keep := " + emit.Bool(w.Opts.KeepRT) + "; f_aud := " + audCoq(w.Opts.Aud) + "; clients := " + emit.List(cs) + " |}"
 }
 
 // HashTableCoq renders verifier -> S256(verifier) for every verifier string that occurred.
@@ -501,6 +511,13 @@ func (w *World) HashTableCoq() string {
 		items[i] = emit.Pair(emit.Str(v), emit.Str(opfix.S256(v)))
 	}
 	return emit.List(items)
+}
+
+func audCoq(a []string) string {
+	if a == nil {
+		return emit.None
+	}
+	return emit.Some(emit.StrList(a))
 }
 
 func idNum(prefix, s string) int {
@@ -621,7 +638,7 @@ func (w *World) tokenRequest(r opfix.Router, place string, form url.Values, cred
 	return opfix.Do(w.F.Handlers[r], w.buildTokenRequest(place, form, credField, decoy, otherGrant, basic))
 }
 
-func (w *World) buildTokenRequest(place string, form url.Values, credField, decoy, otherGrant string, basic []string) *http.Request {
+func (w *World) buildTokenRequest(place string, form url.Values, credField, decoy, otherGrant string, basic []string, enc ...string) *http.Request {
 	body, query := url.Values{}, url.Values{}
 	for k, v := range form {
 		body[k] = v
@@ -647,7 +664,11 @@ func (w *World) buildTokenRequest(place string, form url.Values, credField, deco
 	req := httptest.NewRequest(http.MethodPost, target, strings.NewReader(body.Encode()))
 	req.Header.Set("Content-Type", "application/x-www-form-urlencoded")
 	if len(basic) == 2 {
-		req.SetBasicAuth(url.QueryEscape(basic[0]), url.QueryEscape(basic[1]))
+		esc := url.QueryEscape
+		if len(enc) > 0 && enc[0] == "pct" {
+			esc = func(v string) string { return strings.ReplaceAll(url.QueryEscape(v), "+", "%20") }
+		}
+		req.SetBasicAuth(esc(basic[0]), esc(basic[1]))
 	}
 	return req
 }
@@ -667,7 +688,7 @@ func (w *World) tokenHTTP(o Op) *http.Request {
 			w.Vers[o.Ver] = true
 		}
 		basic := w.applyCred(o.Cred, form)
-		return w.buildTokenRequest(o.Place, form, "code", w.codeString(DecoyID), "refresh_token", basic)
+		return w.buildTokenRequest(o.Place, form, "code", w.codeString(DecoyID), "refresh_token", basic, o.BasicEnc)
 	}
 	form := url.Values{"grant_type": {"refresh_token"}}
 	if o.RT != 0 {
@@ -677,7 +698,7 @@ func (w *World) tokenHTTP(o Op) *http.Request {
 		form.Set("scope", strings.Join(o.Scopes, " "))
 	}
 	basic := w.applyCred(o.Cred, form)
-	return w.buildTokenRequest(o.Place, form, "refresh_token", w.realID("rt", DecoyID), "authorization_code", basic)
+	return w.buildTokenRequest(o.Place, form, "refresh_token", w.realID("rt", DecoyID), "authorization_code", basic, o.BasicEnc)
 }
 
 // ExecOverlap sends token request a, holds it inside its first state-dependent storage lookup
@@ -758,6 +779,7 @@ func (w *World) tokenOut(resp *opfix.Resp) Out {
 		atReal = str(p, "jti")
 		t.ATSub = str(p, "sub")
 		t.JWTCli = str(p, "client_id")
+		t.ATAud = audList(p["aud"])
 	} else if s, ok := w.F.OpenBearer(at); ok {
 		i := strings.Index(s, ":")
 		if i < 0 {
@@ -832,6 +854,9 @@ func (w *World) Exec(o Op) Out {
 		n := 0
 		if idNum("req", id) != 0 {
 			n = w.canon(id)
+			if w.Opts.Aud != nil { // the storage's audience policy
+				w.St.AuthReqs[id].Audience = append([]string{}, w.Opts.Aud...)
+			}
 		}
 		return Out{Coq: emit.Ctor("OAuthz", optNat(n)), Req: n, Human: fmt.Sprintf("%d %s", resp.Status, id)}
 	case "login":
